@@ -102,7 +102,7 @@ fn wires(_quick: bool) -> Vec<Wire> {
     vec![Wire::HttpProto, Wire::HttpJson, Wire::HttpProtoGzip, Wire::HttpJsonGzip, Wire::GrpcProto, Wire::GrpcProtoGzip]
 }
 
-type Table = HashMap<(u8, Wire), ConfigRun>;
+type Table = HashMap<(u8, Wire), Result<ConfigRun, String>>;
 static TABLE: OnceLock<Table> = OnceLock::new();
 
 /// One real emitter per (subset, wire) serves every class of that configuration.
@@ -128,21 +128,41 @@ fn precompute(quick: bool) -> Table {
     out
 }
 
-fn check_class(case: &ClassCase, quick: bool, cx: &mut Cx) -> Res {
+/// A harness problem (no loopback port, ...) makes the run inconclusive, never a violation.
+fn harness(s: &vcore::Session, r: Result<ConfigRun, String>) -> Option<ConfigRun> {
+    match r {
+        Ok(run) => Some(run),
+        Err(e) => {
+            s.inconclusive(format!("harness: {e}"));
+            None
+        }
+    }
+}
+
+fn check_class(s: &vcore::Session, case: &ClassCase, quick: bool, cx: &mut Cx) -> Res {
     let cfg = Config::uniform(case.subset, case.wire);
     let spec = case.spec();
     classify(&cfg, &spec, cx);
     cx.class(&format!("wire:{:?}", case.wire));
     if cx.replaying {
         // replay / regression: a fresh emitter for this one event
-        let run = run_config(&cfg, 7, &[spec.clone()]);
+        let Some(run) = harness(s, run_config(&cfg, 7, &[spec.clone()])) else { return Ok(()) };
         judge_run(&run, cx)?;
         judge(&cfg, &spec, &run.obs[0], cx)
     } else {
         let table = TABLE.get_or_init(|| precompute(quick));
-        let run = &table[&(case.subset, case.wire)];
-        judge_run(run, cx)?;
-        judge(&cfg, &spec, &run.obs[case.index()], cx)
+        match &table[&(case.subset, case.wire)] {
+            Ok(run) => {
+                judge_run(run, cx)?;
+                judge(&cfg, &spec, &run.obs[case.index()], cx)
+            }
+            Err(e) => {
+                if case.index() == 0 {
+                    s.inconclusive(format!("harness: {e}"));
+                }
+                Ok(())
+            }
+        }
     }
 }
 
@@ -230,8 +250,8 @@ fn stream_case() -> impl Strategy<Value = StreamCase> {
     (config(), prop::collection::vec(event(), 1..=6)).prop_map(|(cfg, events)| StreamCase { cfg, events })
 }
 
-fn check_stream(case: &StreamCase, cx: &mut Cx) -> Res {
-    let run = run_config(&case.cfg, 100, &case.events);
+fn check_stream(s: &vcore::Session, case: &StreamCase, cx: &mut Cx) -> Res {
+    let Some(run) = harness(s, run_config(&case.cfg, 100, &case.events)) else { return Ok(()) };
     for w in [case.cfg.logs, case.cfg.traces, case.cfg.metrics].into_iter().flatten() {
         cx.class(&format!("wire:{w:?}"));
     }
@@ -277,9 +297,9 @@ fn main() {
             let cases = wires(quick)
                 .into_iter()
                 .flat_map(|w| (0..8u8).flat_map(move |sub| (0..PER_CONFIG).map(move |i| ClassCase::from_index(sub, w, i))));
-            s.enumerate("class-product", cases, move |c, cx| check_class(c, quick, cx));
+            s.enumerate("class-product", cases, move |c, cx| check_class(s, c, quick, cx));
 
-            s.gen("random-streams", s.n(6000, 200_000), stream_case, check_stream);
+            s.gen("random-streams", s.n(6000, 200_000), stream_case, |c, cx| check_stream(s, c, cx));
         },
     )
 }
